@@ -45,6 +45,14 @@ Proof.
 Qed.
 Print Assumptions C18_merge_spec.
 
+(* neutral elements: the empty state for +, the vacuum of the same size for merge *)
+Theorem C18_neutral_elements :
+  forall s : state,
+    st_add s [] = s /\ st_add [] s = s /\
+    st_merge s (repeat 0%Z (length s)) = Ok s /\ st_merge (repeat 0%Z (length s)) s = Ok s.
+Proof. exact st_neutral. Qed.
+Print Assumptions C18_neutral_elements.
+
 (* a step-1 slice is the contiguous sub-list between the clamped bounds *)
 Theorem C18_slice_is_state :
   forall (s : state) a b k,
